@@ -404,6 +404,21 @@ fn uniq_emit(em: &mut Emitter, xs: &[Option<i64>], scale_i32: &dyn Fn(i64) -> i3
         || uniq_impl!(vi.clone(), opt_i32_cell));
     em.case("exact", &uniq_tags("f64", "vec", xs), &desc("f64", "vec", format!("{:?}", vf)), term_f,
         || uniq_impl!(vf.clone(), |v: f64| Cell::F(v)));
+    // f32 / Option<f32> / Option<f64> elements (seed C14-5: `not_none` of f32 alone became `is_finite`): the model runs on the
+    // f32 values widened back to f64 (exact; f64::MAX narrows to +inf, so the two top codes of part (3) merge into one run)
+    if k % 2 == 0 {
+        let v32: Vec<f32> = vf.iter().map(|x| *x as f32).collect();
+        let v32w: Vec<f64> = v32.iter().map(|x| *x as f64).collect();
+        let term_32 = || format!("(run_uniq_f {})", coq_list(&v32w, |x| coq_optf(*x)));
+        em.case("exact", &uniq_tags("f32", "vec", xs), &desc("f32", "vec", format!("{:?}", v32)), term_32,
+            || uniq_impl!(v32.clone(), |v: f32| Cell::F(v as f64)));
+        let vo32: Vec<Option<f32>> = v32.iter().map(|x| if x.is_nan() { None } else { Some(*x) }).collect();
+        em.case("exact", &uniq_tags("opt_f32", "vec", xs), &desc("Option<f32>", "vec", format!("{:?}", vo32)), term_32,
+            || uniq_impl!(vo32.clone(), |v: Option<f32>| match v { Some(x) => Cell::F(x as f64), None => Cell::Null }));
+        let vo64: Vec<Option<f64>> = vf.iter().map(|x| if x.is_nan() { None } else { Some(*x) }).collect();
+        em.case("exact", &uniq_tags("opt_f64", "vec", xs), &desc("Option<f64>", "vec", format!("{:?}", vo64)), term_f,
+            || uniq_impl!(vo64.clone(), |v: Option<f64>| match v { Some(x) => Cell::F(x), None => Cell::Null }));
+    }
     if !has_null {
         let plain: Vec<i32> = vi.iter().flatten().cloned().collect();
         em.case("exact", &uniq_tags("i32", "vec", xs), &desc("i32", "vec", format!("{:?}", plain)), term_z,
